@@ -458,10 +458,16 @@ func (vc *VC) fieldAddr(st *State, x Val, ptrT types.Type, i int, pos token.Pos)
 		nl.Path = append(append([]pathStep{}, x.Path...), pathStep{fld: i, sort: vc.sortOf(structT), ct: structT})
 		nl.T = ft
 		return &nl
+	case *GlobalConst:
+		return &GlobalConst{T: &Term{fmt.Sprintf("(%s_f%d %s)", vc.sortOf(structT), i, x.T.S), vc.sortOf(ft), ft}}
 	}
 	unsup("fieldAddr on %T", x)
 	return nil
 }
+
+// GlobalConst is the address of (a part of) a package variable that is never
+// written after initialisation; loads read the constant value.
+type GlobalConst struct{ T *Term }
 
 func (vc *VC) boundsCheck(st *State, i string, n string, pos token.Pos, what string) {
 	z := vc.intLit(0, 64)
@@ -499,6 +505,8 @@ func (vc *VC) indexAddr(st *State, x Val, xT types.Type, idx *Term, pos token.Po
 			nl.Path = append(append([]pathStep{}, x.Path...), pathStep{isIdx: true, idx: i})
 			nl.T = a.Elem()
 			return &nl
+		case *GlobalConst:
+			return &GlobalConst{T: &Term{"(select " + x.T.S + " " + i + ")", vc.sortOf(a.Elem()), a.Elem()}}
 		}
 	case *types.Slice:
 		s := x.(*Term)
@@ -521,6 +529,8 @@ func (vc *VC) load(st *State, p Val, pos token.Pos) *Term {
 		pt := types.Unalias(p.T).Underlying().(*types.Pointer)
 		t := vc.loadRef(st, p.S, pt.Elem())
 		return vc.nameLoaded(st, t)
+	case *GlobalConst:
+		return vc.nameLoaded(st, p.T)
 	}
 	unsup("load from %T", p)
 	return nil
@@ -734,7 +744,45 @@ func (vc *VC) mergeStates(sts []*State, conds []string) *State {
 			n.env[k] = m
 		}
 	}
+	// source-level names (used only by specifications): a name bound on some
+	// of the incoming paths keeps its value there and is unconstrained elsewhere
+	nameSet := map[string]*Term{}
+	for _, s := range sts {
+		for k, v := range s.names {
+			if t, ok := v.(*Term); ok && nameSet[k] == nil {
+				nameSet[k] = t
+			}
+		}
+	}
+	for k, proto := range nameSet {
+		var vals []Val
+		allSame := true
+		for _, s := range sts {
+			v, has := s.names[k]
+			if t, isT := v.(*Term); has && isT && t.Sort == proto.Sort {
+				vals = append(vals, t)
+				if t.S != proto.S {
+					allSame = false
+				}
+			} else {
+				allSame = false
+				f := vc.freshSort("nm_"+k, proto.Sort)
+				f.T = proto.T
+				vals = append(vals, f)
+			}
+		}
+		if allSame {
+			n.names[k] = proto
+			continue
+		}
+		if m, ok := vc.mergeVal(conds, vals); ok {
+			n.names[k] = m
+		}
+	}
 	for k, v0 := range sts[0].names {
+		if _, done := n.names[k]; done {
+			continue
+		}
 		ok := true
 		for _, s := range sts[1:] {
 			v, has := s.names[k]
